@@ -16,16 +16,19 @@ M_DECLS = [
     'class Helper:\n    """Helper class."""\n\n    at: int = 1\n\n    def meth(self, o: Other) -> int:\n        ...\n',
     "class Other(Helper):\n    def more(self, x: list[Helper]) -> set[int]:\n        ...\n",
     "class Col(Enum):\n    RED = 1\n    BLUE = 2\n",
+    "class Box(Generic[T]):\n    def get(self) -> T:\n        ...\n",
+    "class Picker:\n    def pick(self, items: list[T]) -> T:\n        ...\n",
 ]
 U_PLAIN = "class Unrelated:\n    pass\n\n\ndef unrelated_fun(a: int) -> int:\n    ...\n"
 U_CHANGED = "class Unrelated:\n    def extra(self) -> str:\n        ...\n\n\ndef unrelated_fun(a: str, b: int = 2) -> str:\n    ...\n\n\nclass Another:\n    pass\n"
 U_SAME = ("class Helper:\n    def meth(self, q: str) -> str:\n        ...\n\n\nclass Other:\n    pass\n\n\nclass Sibling:\n    pass\n\n\n"
-          "def first(z: Helper) -> Other:\n    ...\n\n\nclass Col:\n    pass\n")
+          "def first(z: Helper) -> Other:\n    ...\n\n\nclass Col:\n    pass\n\n\n"
+          "INSTANCE = Helper()\nOTHER = Other()\nSIB = Sibling()\nCOL = Col()\n\n\ndef make() -> Helper:\n    return Helper()\n")
 
 
 def m_source(base: str, order: int) -> str:
     decls = list(M_DECLS)
-    head = ["from __future__ import annotations", "from enum import Enum"]
+    head = ["from __future__ import annotations", "from enum import Enum", "from typing import Generic, TypeVar", "", 'T = TypeVar("T")']
     if base == "references-sibling":
         head.append(f"from {PKG}.sibmod import Sibling")
         decls.append("def uses_sibling(s: Sibling) -> Sibling:\n    ...\n")
@@ -33,7 +36,8 @@ def m_source(base: str, order: int) -> str:
         decls.append("def odd(a: list[Helper, Other], b: set[Other, int]) -> int:\n    ...\n")
     if order == 2:
         # functions among themselves, classes among themselves (a subclass stays after its base class)
-        decls = [decls[1], decls[0]] + ([decls[5]] if len(decls) > 5 else []) + [decls[4], decls[2], decls[3]]
+        extra = decls[7:]
+        decls = [decls[1], decls[0]] + extra + [decls[6], decls[4], decls[5], decls[2], decls[3]]
     return "\n".join(head) + "\n\n\n" + "\n\n".join(decls)
 
 
@@ -76,6 +80,7 @@ def facts(r):
 
         def decl(d):
             return json.dumps({"k": d.kind, "n": d.pyname, "doc": d.doc, "todos": d.todos, "static": d.static,
+                               "tp": [[t["name"], t["variance"], type_term(t["bound"])] for t in d.typeparams],
                                "params": None if d.params is None else [[p["pyname"], type_term(p["type"]), p["default"]] for p in d.params],
                                "res": [[x["pyname"], type_term(x["type"])] for x in d.results], "supers": [type_term(s) for s in d.supers],
                                "type": type_term(d.type) if d.kind == "attr" else None, "members": [decl(m) for m in d.members]}, sort_keys=True)
